@@ -25,6 +25,9 @@ def run(check: Check, repo: Repo, tier: str) -> None:
     D.option_map(check, repo)
     D.introspect_matrix(check, repo)
     D.enum_tables(check, repo)
+    from rules import coercion_rules as K2
+    K2.field_requiredness(check, repo)
+    L.ws_agree(check, repo, ['language.block_string', 'language.printer'])
     umods = [repo.mod(m) for m in ("utilities.introspection_from_schema", "utilities.get_introspection_query",
                                    "utilities.build_client_schema", "utilities.print_schema", "utilities.value_to_literal",
                                    "utilities.get_default_value_ast", "type.introspection")]
